@@ -697,4 +697,11 @@ def compositeDefaultState (fuel : Nat) (kids : List (String × Procs)) (topology
     Except Err Val :=
   compositeState fuel false kids topology .none
 
+/-- `Composite.generate_store(config)`: the store is generated from `initial_state(config)` -/
+def generateStore (reg : Reg) (fuel : Nat) (kids procs steps : List (String × Procs))
+    (topology ownState cfgInitial : Val) : Except Err Tree :=
+  match compositeInitialState fuel kids topology ownState cfgInitial with
+  | .ok init => generate reg fuel procs steps topology init
+  | .error e => .error e
+
 end Viv
